@@ -1420,7 +1420,10 @@ def _run_hom_table(ctx, rid, it, table, home_rel, complex_scale=False,
     import os
     r = ctx.r
     debug = os.environ.get("SA_HOM_DEBUG")
-    O = ("a",)
+    # composite shapes of the objects: one batch axis in the quick tier, none
+    # / one / two in the thorough tier (rank-dependent branches)
+    outers = [("a",)] if ctx.tier == "quick" else [(), ("a",), ("a", "b")]
+    O = outers[0]
     stats = {"proved": 0, "refuted": 0, "undecided": 0, "rows": 0}
 
     def flat(v, pre=""):
@@ -1498,13 +1501,16 @@ def _run_hom_table(ctx, rid, it, table, home_rel, complex_scale=False,
             runs.append((t, got))
 
         failed = None
-        try:
-            it.explore_paths(one_path)
-        except (Unsupported, ShapeError, DataDependent, AttributeErrorSim,
-                RaiseSim) as e:
-            failed = str(e)
-        finally:
-            it.homt = None
+        for O in outers:
+            if len(O) < spec.get("min_rank", 0):
+                continue
+            try:
+                it.explore_paths(one_path)
+            except (Unsupported, ShapeError, DataDependent,
+                    AttributeErrorSim, RaiseSim) as e:
+                failed = failed or f"outer shape {O}: {e}"
+            finally:
+                it.homt = None
         inst = f"{rid}:{label}"
         verdict = "proved"
         detail = ""
